@@ -260,12 +260,12 @@ func verifCreateDataChannel(pc *webrtc.PeerConnection, label string, o *webrtc.D
 	verifDC = new(webrtc.DataChannel)
 	return verifDC, nil
 }
-func verifDCOnOpen(dc *webrtc.DataChannel, f func())                                       { verifOnOpen = f }
-func verifDCOnClose(dc *webrtc.DataChannel, f func())                                      {}
-func verifDCOnError(dc *webrtc.DataChannel, f func(error))                                 {}
-func verifDCOnMessage(dc *webrtc.DataChannel, f func(webrtc.DataChannelMessage))           {}
-func verifDCClose(dc *webrtc.DataChannel) error                                            { return nil }
-func verifPCClose15(pc *webrtc.PeerConnection) error                                       { verifPCCloses++; return nil }
+func verifDCOnOpen(dc *webrtc.DataChannel, f func())                             { verifOnOpen = f }
+func verifDCOnClose(dc *webrtc.DataChannel, f func())                            {}
+func verifDCOnError(dc *webrtc.DataChannel, f func(error))                       {}
+func verifDCOnMessage(dc *webrtc.DataChannel, f func(webrtc.DataChannelMessage)) {}
+func verifDCClose(dc *webrtc.DataChannel) error                                  { return nil }
+func verifPCClose15(pc *webrtc.PeerConnection) error                             { verifPCCloses++; return nil }
 func verifGathering(pc *webrtc.PeerConnection) <-chan struct{} {
 	ch := make(chan struct{})
 	close(ch)
